@@ -238,7 +238,7 @@ func TestC10(t *testing.T) {
 		r.Label("long-messages-across-buffer-refills")
 		// lists of every length around and above the decoder's pre-allocation bound, with zero timestamps
 		// (carried as null) at drawn positions
-		for _, ln := range []int{1, 2, 63, 64, 65, 66, 100, 129, 257, 1025} {
+		for _, ln := range []int{1, 2, 3, 4, 5, 6, 7, 8, 9, 10, 15, 16, 17, 63, 64, 65, 66, 100, 129, 257, 1025} {
 			for rep := 0; rep < 4; rep++ {
 				l := make([]time.Time, ln)
 				zeros := 0
